@@ -72,6 +72,8 @@ class Facts:
         self.adts = {}       # crate::pretty -> dict
         self.impls = []      # dicts with crate
         self.crates = []
+        self.renamed = {}
+        self.notes = []
         for f in sorted(glob.glob(os.path.join(fdir, "*.jsonl"))):
             crate = None
             with open(f) as fh:
@@ -93,6 +95,10 @@ class Facts:
                         d["trait"] = nrm(d["trait"])
                         d["self_ty"] = nrm(d["self_ty"])
                         self.impls.append(d)
+        # anchored functions that were renamed or moved: resolve eagerly so that every later query sees the anchored name
+        for name in _anchors():
+            if name not in self.by_name and name.split("::", 1)[0] in self.crates:
+                self._resolve_renamed(name)
         # trait-method dispatch table: (method name, self type string) -> raw path
         self.dispatch = {}
         for im in self.impls:
@@ -100,11 +106,34 @@ class Facts:
                 self.dispatch.setdefault((name, im["self_ty"], im["crate"]), path)
 
     def fn(self, name):
-        """lookup by canonical pretty name, fail closed"""
+        """lookup by canonical pretty name; a renamed/moved function is found by its frozen signature when that
+        identifies exactly one function of the crate that is not itself a known anchor; otherwise fail closed"""
         f = self.by_name.get(name)
+        if f is None:
+            f = self._resolve_renamed(name)
         if f is None:
             raise KeyError("anchor missing: %s" % name)
         return f
+
+    def _resolve_renamed(self, name):
+        if name in self.renamed:
+            return self.renamed[name]
+        res = None
+        anchors = _anchors()
+        sig = anchors.get(name)
+        if sig is not None:
+            crate = name.split("::", 1)[0]
+            cands = [g for g in self.fns.values()
+                     if g.crate == crate and g.kind in ("Fn", "AssocFn") and not g.trait and g.name not in anchors
+                     and signature(g) == sig]
+            if len(cands) == 1:
+                res = cands[0]
+                self.notes.append("anchor %s not found by name; resolved by signature to %s (%s)" % (name, res.name, res.loc))
+                # downstream queries compare callee names: give the function its anchored name
+                self.by_name[name] = res
+                res.name = name
+        self.renamed[name] = res
+        return res
 
     def find(self, suffix):
         return [f for f in self.fns.values() if f.name.endswith(suffix)]
@@ -164,6 +193,22 @@ class Facts:
                 if g is not None:
                     stack.append(g)
         return seen
+
+
+def signature(fn):
+    """return type, argument types, generic parameter count and receiver type of a function (frozen in sv/anchors.json)"""
+    return {"sig": [fn.locals[i] for i in range(fn.argc + 1)], "generics": len(fn.generics or []), "self_ty": fn.self_ty}
+
+
+_ANCHORS = None
+
+
+def _anchors():
+    global _ANCHORS
+    if _ANCHORS is None:
+        p = os.path.join(os.path.dirname(os.path.abspath(__file__)), "anchors.json")
+        _ANCHORS = json.load(open(p)) if os.path.exists(p) else {}
+    return _ANCHORS
 
 
 def const_int(k):
